@@ -94,7 +94,7 @@ func render(path string, e fentry, pkgText map[string]string) []byte {
 			case "req":
 				sb.WriteString(reqJS("__filename", i.req, i.catch))
 			case "throw":
-				fmt.Fprintf(&sb, "throw __thrown(%d);\n", i.k)
+				fmt.Fprintf(&sb, "__throws.push([__filename, %d, __log.length]); throw __thrown(%d);\n", i.k, i.k)
 			}
 		}
 		return []byte(sb.String())
@@ -111,7 +111,7 @@ func render(path string, e fentry, pkgText map[string]string) []byte {
 	return nil
 }
 
-const prelude = `var __count = {}, __log = [], __ids = new Map(), __thrownObjs = {};
+const prelude = `var __count = {}, __log = [], __ids = new Map(), __thrownObjs = {}, __throws = [];
 function __bump(f){ __count[f] = (__count[f]||0) + 1 }
 function __id(o){ if (!__ids.has(o)) __ids.set(o, __ids.size); return __ids.get(o) }
 function __keys(o){ return Object.keys(o).filter(function(k){ return /^k\d+$/.test(k) }).map(function(k){ return [parseInt(k.slice(1)), o[k]] }) }
@@ -183,7 +183,19 @@ func main() {
 			if r.Chance(30) {
 				names = append(names, "ix")
 			}
+			pdMain, pdRootIndex := "", false
+			if r.Chance(40) { // a package whose "main" names a DIRECTORY: the module is that directory's index.js
+				names = append(names, "pd")
+				pdMain = r.Pick([]string{"lib", "./lib", "lib/", "."})
+				pdRootIndex = pdMain != "." && r.Chance(50)
+			}
 			spell := func(target string) string {
+				if target == "pd" {
+					if pdMain == "." {
+						return r.Pick([]string{"./pd", "/vr/app/pd", "./pd/index.js", "./pd/index", "./x/../pd", "../app/pd"})
+					}
+					return r.Pick([]string{"./pd", "/vr/app/pd", "./pd/lib/index.js", "./pd/lib", "./pd/lib/index", "./x/../pd", "../app/pd", "/vr/app/pd/lib"})
+				}
 				if target == "pk" {
 					return r.Pick([]string{"./pk", "/vr/app/pk", "./pk/main.js", "./pk/main", "./x/../pk", "../app/pk", "/vr/app/pk/main.js"})
 				}
@@ -232,6 +244,17 @@ func main() {
 					pkgText["/vr/app/pk/package.json"] = `{"main": "main.js"}`
 				case "ix":
 					files["/vr/app/ix/index.js"] = jsmod(prog...)
+				case "pd":
+					pp := "/vr/app/pd/package.json"
+					files[pp], pkgText[pp] = fentry{kind: "pkg", main: pdMain}, fmt.Sprintf(`{"main": %s}`, jsq(pdMain))
+					if pdMain == "." {
+						files["/vr/app/pd/index.js"] = jsmod(prog...)
+					} else {
+						files["/vr/app/pd/lib/index.js"] = jsmod(prog...)
+						if pdRootIndex { // never selected: the main directory has an index
+							files["/vr/app/pd/index.js"] = jsmod(instr{op: "bump"}, instr{op: "set", k: 2, v: 8})
+						}
+					}
 				default:
 					files["/vr/app/"+nm+".js"] = jsmod(prog...)
 				}
@@ -355,6 +378,11 @@ func main() {
 			}
 			reqs := []string{"./m", "m", "/vr/app/m", "../app/m", "./m.js", "./m/lib", "m/lib", "m/lib", "./m/w", "./m/w.js", "./sub/z", "x/y", "./sub/../m", "/vr/app/sub/m", "./nothing", "nothing", "./m/index"}
 			ncalls := 2 + r.Intn(5)
+			// the directory a "main" names, required on its own first: what that request resolved to must not answer the probe of the outer main
+			if _, has := files["/vr/app/m/lib/package.json"]; has && r.Chance(60) {
+				calls = append(calls, [3]string{"js", "/vr/app", r.Pick([]string{"./m/lib", "/vr/app/m/lib", "./m/../m/lib"})})
+				calls = append(calls, [3]string{"js", "/vr/app", r.Pick([]string{"./m", "/vr/app/m", "../app/m"})})
+			}
 			for i := 0; i < ncalls; i++ {
 				calls = append(calls, [3]string{"js", r.Pick([]string{"/vr/app", "/vr/app/sub", "/vr/app/node_modules/x", "/vr", "/"}), r.Pick(reqs)})
 			}
@@ -465,10 +493,28 @@ func main() {
 			continue
 		}
 		// ---- collect ----
-		lv, _ := vm.RunString(`JSON.stringify([__log, __count])`)
+		lv, _ := vm.RunString(`JSON.stringify([__log, __count, __throws])`)
 		var got []interface{}
 		jsonUnmarshal(lv.String(), &got)
 		logArr := got[0].([]interface{})
+		// log-only oracle: the value a module body throws is what the require() that was evaluating it reports next
+		for _, t := range got[2].([]interface{}) {
+			tr := t.([]interface{})
+			idx := int(tr[2].(float64))
+			good := false
+			if idx < len(logArr) {
+				pl := logArr[idx].([]interface{})[2].([]interface{})
+				good = pl[0].(string) == "thrown" && int(pl[1].(float64)) == int(tr[1].(float64)) && pl[2].(bool)
+			}
+			if !good {
+				var next interface{} = "(no further require outcome was logged)"
+				if idx < len(logArr) {
+					next = logArr[idx]
+				}
+				out.Fail(id, "thrown-value-did-not-reach-the-requirer", map[string]interface{}{"file": tr[0], "tag": tr[1], "next_logged_outcome": next, "calls": calls})
+			}
+		}
+		out.Count("throws", lib.SizeBucket(len(got[2].([]interface{}))))
 		counts := got[1].(map[string]interface{})
 		var evCoq, evFiles, evCounts []string
 		var descEv []string
